@@ -20,3 +20,4 @@ def run(ctx):
     ctx.prefetch(cfgs)
     ctx.run_rule("Z1", r_secrecy.rule_Z1, cfgs + (["portable1", "asm-nostd"] if ctx.tier == "thorough" else ["portable1"]))
     ctx.run_rule("Z2", r_secrecy.rule_Z2, cfgs)
+    ctx.run_rule("ZL", r_secrecy.rule_ZL, cfgs)
